@@ -314,3 +314,19 @@ CHECKS["C19"] = dict(
     floors=dict(any={"TestC19Logs.states_probed": 5000, "TestC19Logs.failed_sends": 300, "TestC19Logs.validation_results": 200, "TestC19Concurrent.operations": 800}),
     assumptions=["for results carried by UpdateValidationStatus only 'sent => recorded exactly once' is asserted"],
 )
+
+CHECKS["C01"] = dict(
+    level="exploration",
+    rule=("two FULL nodes inside one synctest bubble: libp2p mocknet hosts, real go-graphsync, real network layer, real graphsync transport, real managers, in-memory "
+          "blockstores. Per case: PRNG DAG (depth 0-3, fan-out 1-5, raw/dag-cbor leaves of 1 B-48 KiB, duplicated leaves and sub-DAGs; expected block set, traversal length and "
+          "unique byte size come from an independent walk of the source store), direction, store configuration (default / per-channel store on receiver, sender, both), and a "
+          "scenario by index: plain, data limit with repeated raises by the responder application, finalization round, forced pause then release, pause/resume by either party at "
+          "the j-th received block, link cut at the j-th block healed by the channel monitor (virtual timers), some with the monitor merely enabled. After 20 virtual minutes at "
+          "quiescence, IF the initiator is Completed and the responder had accepted: responder Completed and applied its own completion, every selected block in the receiver's "
+          "store byte-identical, Received(receiver) == Queued(sender) == unique payload size. Cases where the initiator does not complete are counted as trivial. "
+          "distinct = (direction, scenario, store config, final statuses, cuts, size class)."),
+    parts=[dict(test="TestC01E2E", quick=60, thorough=3000, per_shard=4, watchdog=180)],
+    floors=dict(any={"TestC01E2E.initiator_completed": 36, "TestC01E2E.limit_raises": 5, "TestC01E2E.finalization_rounds": 5, "TestC01E2E.completed_through_restart": 2,
+                     "TestC01E2E.blocks": 300}),
+    assumptions=["libp2p mocknet and in-memory blockstores stand in for real networks/disks; graphsync is the only transport"],
+)
